@@ -16,7 +16,7 @@ from . import build as B
 
 VERIF = B.VERIF
 RUN_ROOT = os.path.join(B.BUILD_ROOT, "run")
-EVIDENCE = os.path.join(VERIF, "evidence")
+EVIDENCE = os.environ.get("RXV_EVIDENCE_DIR") or os.path.join(VERIF, "evidence")  # the override is used by lib/coverage_report.py only
 REPLAYS = os.path.join(VERIF, "replays")
 FINDINGS = os.path.join(VERIF, "known_findings.txt")
 NCPU = os.cpu_count() or 16
@@ -229,6 +229,12 @@ def run_check(prop, cfg, tier, seed, replay=None):
     extra_records = []
 
     tasks = []
+    override = os.environ.get("RXV_VARIANT_OVERRIDE")  # coverage measurement only: run the opt / asan / tsan jobs on another build
+    if override:
+        jobs = [dict(j, variant=override) for j in jobs if j["variant"] in ("opt", "asan", "tsan") and not j.get("valgrind")]
+        for v in set(j["variant"] for j in jobs):
+            if v not in bins:
+                bins[v] = B.build(v)
     for ji, j in enumerate(jobs):
         n = j.get("shards", 1)
         if n <= 0:
